@@ -85,7 +85,7 @@ func (f *FC) nfInliningNewHelpers(fn *ir.Func, keepShared bool) (string, []strin
 		added := false
 		ir.Walk(t, func(x ir.Term) bool {
 			if fr, ok := x.(*ir.FuncRef); ok {
-				if g, ok := f.Prog.ByKey[fr.Key]; ok && g != fn && !base[g.Name] && inl[g.Key] == nil {
+				if g, ok := f.Prog.ByKey[fr.Key]; ok && g != fn && !base[g.Name] && inl[g.Key] == nil && !reachesItself(f.Prog, g) {
 					inl[g.Key] = g
 					names = append(names, g.Name)
 					added = true
